@@ -45,7 +45,7 @@ type Program struct {
 //	E  release on entry, fail at once
 //	N  never release, return only at the end of the program
 var immediate = map[byte]bool{'F': true, 'L': true, 'E': true}
-var holds = map[byte]bool{'H': true, 'N': true}
+var holds = map[byte]bool{'H': true, 'N': true, 'I': true}
 
 var methodKind = map[string]string{
 	"Rpc": "rpc", "QC": "qc", "QCPerNode": "qc", "QCCustom": "qc", "QCCombo": "qc",
@@ -143,6 +143,17 @@ func (r *Runner) RunProgram(p Program) []uint64 {
 				c.pending = append(c.pending, n)
 			case 'H', 'N':
 				srv.SetHold(c.tok, true)
+				c.pending = append(c.pending, n)
+			case 'I':
+				// holds the connection and, for a streaming method, sends three items back to
+				// back before it waits (the server's sender goroutine is busy with the first
+				// when the second is handed over)
+				srv.SetHold(c.tok, true)
+				if c.kind == "corrstream" {
+					for i := 0; i < 3; i++ {
+						ch <- puppetsrv.Cmd{Kind: "item", Val: 1}
+					}
+				}
 				c.pending = append(c.pending, n)
 			case 'R':
 				srv.SetHold(c.tok, true)
